@@ -206,7 +206,8 @@ def _normalisation_note(ctx: "Ctx") -> T.Dict[str, T.Any]:
             "renames_undone": list(normalise.LAST_RUN.get("renames_undone", [])),
             "new_constants_inlined": list(normalise.LAST_RUN.get("constants_inlined", [])),
             "local_renames_undone": list(normalise.LAST_RUN.get("local_renames_undone", [])),
-            "table_dispatch_expanded": normalise.LAST_RUN.get("dispatch_expanded", 0)}
+            "table_dispatch_expanded": normalise.LAST_RUN.get("dispatch_expanded", 0),
+            "literal_loops_unrolled": normalise.LAST_RUN.get("literal_loops_unrolled", 0)}
 
 
 def write_evidence(ctx: Ctx, mod: T.Any, wall: float, known_matched: T.List[str], new: T.List[Finding],
